@@ -4328,7 +4328,9 @@ fn node<T>(value: T) -> XmlNode<T> {
 }
 
 fn normalize_ws(value: &str) -> String {
-    let mut v = value.to_string();
+    // End-of-line handling (XML 1.0 2.11) comes first: a literal CR LF pair is one line end and
+    // so becomes one space, not two.
+    let mut v = value.replace("\r\n", "\n");
     unsafe {
         v = v.replace(char::from_u32_unchecked(0x20), " ");
         v = v.replace(char::from_u32_unchecked(0x0D), " ");
